@@ -48,6 +48,17 @@ def run(ctx):
             f = dict(zip(s["rv"]["fields"], [expr(sn, o) for o in s["rv"]["ops"]]))
             ok = f.get("inner") == "inner" and re.fullmatch(r"char_indices\(split_nonutf8_once\(inner\)\.0\)", f.get("utf8_prefix", "")) is not None \
                 and re.fullmatch(r"split_nonutf8_once\(inner\)\.1", f.get("invalid_suffix", "")) is not None
+            if not ok and f.get("inner") == "inner":
+                # split_nonutf8_once written out in place: (prefix, suffix) = (inner as str, None) if inner is UTF-8, else the two halves of
+                # split_at(inner, valid_up_to) — the index itself is covered by the split_at-index rule above
+                m1 = re.fullmatch(r"char_indices\(_(\d+)\.0\)", f.get("utf8_prefix", ""))
+                m2 = re.fullmatch(r"_(\d+)\.1", f.get("invalid_suffix", ""))
+                if m1 and m2 and m1.group(1) == m2.group(1):
+                    prs = [tuple(expr(sn, o) for o in d[3]["ops"]) for d in sn.def_sites(int(m1.group(1))) if isinstance(d[3], dict) and d[3]["k"] == "agg"]
+                    ok = len(prs) == 2 and all(
+                        (a == "try_str(inner)#Ok.0" and b.startswith("Option::None")) or
+                        (re.fullmatch(r"(unwrap|expect)\(try_str\(split_at\(inner,(.*)\)\.0\).*\)", a) is not None and
+                         re.fullmatch(r"Option::Some\(split_at\(inner,(.*)\)\.1\)", b) is not None) for a, b in prs) and len(set(prs)) == 2
             res.check(ok, "R13.1", "shortflags-new", sn.where(), "ShortFlags{inner, char_indices(valid prefix of inner), invalid suffix of inner}",
                       "ShortFlags::new no longer derives utf8_prefix/invalid_suffix from the `inner` it stores: %s" % f)
     if not ok and not any(i["key"].endswith("shortflags-new") for i in res.items):
@@ -139,7 +150,11 @@ def run(ctx):
         res.violation("R13.7", "siblings-use-is_number", (pn if not pc else sn).where(), "a negative-number classifier no longer decides through is_number: ParsedArg and ShortFlags would disagree on what a number is")
     for t, c in pc:
         e = expr(t, c.args[0])
-        res.check(re.fullmatch(r"branch\(strip_prefix\(s,(45|'-')\)\)#Continue\.0", e) is not None and bool(pn.calls_to(r"ParsedArg::to_value$")), "R13.7", "parsed-arg", c.where(),
+        # `to_value().ok().and_then(|s| Some(is_number(s.strip_prefix('-')?)))` or the same as nested matches; whatever else the function returns is `false`
+        okp = re.fullmatch(r"(branch\(strip_prefix\((s|to_value\(self\)#Ok\.0|ok\(to_value\(self\)\)#Some\.0),(45|'-')\)\)#Continue\.0|strip_prefix\((s|to_value\(self\)#Ok\.0|ok\(to_value\(self\)\)#Some\.0),(45|'-')\)#Some\.0)", e) is not None
+        others = [d for d in pn.def_sites(0) if isinstance(d[3], dict)]
+        okp = okp and all(d[3]["k"] == "use" and op_int(d[3]["op"]) == 0 for d in others)
+        res.check(okp and bool(pn.calls_to(r"ParsedArg::to_value$")), "R13.7", "parsed-arg", c.where(),
                   "is_number(to_value()?.strip_prefix('-')?)", "ParsedArg::is_negative_number tests is_number(%s)" % e[:80])
     for t, c in sc_:
         e = expr(t, c.args[0])
@@ -148,7 +163,23 @@ def run(ctx):
     # ---- R13.8b advance_by(n) = n successful next_flag() calls: it stops with Err(i) on exhaustion AND on the invalid suffix
     ab = fx.body("clap_lex::ShortFlags::advance_by")
     heads = [c for c in ab.calls_to(r"Iterator>?::next$") if re.search(r"Range", expr(ab, c.args[0]))]
-    res.floor("R13.8", "loop head of advance_by", len(heads), 1)
+    tfe = [c for c in ab.calls_to(r"Iterator>?::try_for_each$") if re.match(r"^Range::Range\(0,n\)$", expr(ab, c.args[0]))]
+    res.floor("R13.8", "loop head of advance_by", len(heads) + len(tfe), 1)
+    for c in tfe:
+        # (0..n).try_for_each(|i| ..): the closure's Ok comes only from a flag that is Some(Ok(_)) — exhaustion and the invalid suffix both give Err(i)
+        cbs = closure_bodies(fx, c)[-1:]
+        okb = bool(cbs)
+        for cb in cbs:
+            nx = r"branch\(ok_or\((next|next_flag)\(arg1\.0\),\w+\)\)"
+            for d in cb.def_sites(0):
+                rv = d[3]
+                if isinstance(rv, Call) and rv.is_(r"FromResidual>?::from_residual$") and re.fullmatch(nx + r"#Break\.0", expr(cb, rv.args[0])):
+                    continue
+                if isinstance(rv, Call) and rv.is_(r"Result(<[^>]*>)?::map_err$") and re.fullmatch(r"(map\()?" + nx + r"#Continue\.0(,closure\(\)\))?", expr(cb, rv.args[0])):
+                    continue
+                okb = False
+        res.check(okb, "R13.8", "advance_by-stops-on-invalid", ab.where(), "try_for_each continues only after a flag that is Some(Ok(_))",
+                  "advance_by's try_for_each closure can return Ok for something other than a successfully read flag")
     if heads:
         h = heads[0]
         back = [p for p in ab.pred()[h.bb] if h.bb in ab.reachable(h.target if h.target is not None else h.bb) and p in ab.reachable(h.target if h.target is not None else h.bb)]
@@ -215,7 +246,13 @@ def run(ctx):
     for u in cl.unsafes:
         f = u["span"][0]
         owner = cl.q[u["owner"]]
-        res.check(owner in ("<std::ffi::os_str::OsStr as clap_lex::ext::OsStrExt>::strip_prefix", "<std::ffi::os_str::OsStr as clap_lex::ext::OsStrExt>::split_once",
+        # elsewhere: covered when everything the block calls is one of the two unsafe operations R13.1 checks per call site
+        # (ext::split_at, from_encoded_bytes_unchecked) or an ordinary safe call
+        ob = [b for b in cl.bodies if b.q == owner or b.q.startswith(owner + "::{closure")]
+        inside = [c for b in ob for c in b.calls() if c.sp and sp_contains(u["span"], c.sp)]
+        covered = bool(inside) and any(c.is_(r"^clap_lex::ext::split_at$", r"OsStr::from_encoded_bytes_unchecked$") for c in inside) and \
+            not any(c.is_(r"unchecked|from_raw|transmute|ptr::|assume_init|::offset$|zeroed$|MaybeUninit|::add$|::sub$") and not c.is_(r"OsStr::from_encoded_bytes_unchecked$") for c in inside)
+        res.check(covered or owner in ("<std::ffi::os_str::OsStr as clap_lex::ext::OsStrExt>::strip_prefix", "<std::ffi::os_str::OsStr as clap_lex::ext::OsStrExt>::split_once",
                             "clap_lex::ext::split_at", "clap_lex::ShortFlags::next_value_os", "clap_lex::split_nonutf8_once"),
                   "R13.1", "unsafe-census|" + owner, sp_str(u["span"]), "unsafe block in a function covered by R13.1", "new unsafe block in %s not covered by the boundary-provenance rule" % owner)
     res.floor("R13.1", "unsafe blocks in clap_lex", len(cl.unsafes), 4)
